@@ -10,6 +10,7 @@ import (
 	"sort"
 	"strconv"
 	"sync"
+	"time"
 	"testing"
 )
 
@@ -137,9 +138,48 @@ func (e *Evidence) Flush() {
 // Main is the TestMain body shared by all harness packages.
 func Main(m *testing.M) {
 	LoadKnown()
+	stall := watchStalls()
 	code := m.Run()
 	Ev.Flush()
+	if gap, at := stall(); gap > 0 {
+		// the whole process stood still (a paused or snapshotted VM, a starved machine): bounds measured in wall time
+		// during that window say nothing about the code. The driver re-runs a failed shard that reports this.
+		fmt.Printf("VERIF-STALL-OBSERVED gap=%v at=%s\n", gap.Round(time.Millisecond), at.Format(time.RFC3339))
+	}
 	os.Exit(code)
+}
+
+// watchStalls starts a heartbeat that ticks every 50ms and remembers the longest gap between two ticks above two
+// seconds; the returned func reports it (zero when there was none).
+func watchStalls() func() (time.Duration, time.Time) {
+	var mu sync.Mutex
+	var worst time.Duration
+	var when time.Time
+	go func() {
+		prev := time.Now()
+		for {
+			time.Sleep(50 * time.Millisecond)
+			now := time.Now()
+			// wall clock and monotonic clock are both consulted: a paused VM may advance only one of them
+			gap := now.Sub(prev)
+			if w := now.Round(0).Sub(prev.Round(0)); w > gap {
+				gap = w
+			}
+			if gap > 2*time.Second {
+				mu.Lock()
+				if gap > worst {
+					worst, when = gap, now
+				}
+				mu.Unlock()
+			}
+			prev = now
+		}
+	}()
+	return func() (time.Duration, time.Time) {
+		mu.Lock()
+		defer mu.Unlock()
+		return worst, when
+	}
 }
 
 // Tier returns "quick" or "thorough".
